@@ -125,7 +125,7 @@ func (s *vFlatSys) observe(hist []vOp) {
 			s.c.Violation("search-error", "", s.cfg, vHistStrings(hist), q.String()+": "+err.Error())
 			continue
 		}
-		cands, boundary := vEligible(s.metric, s.m.live, q, func(id uint32, v []float32) float64 { return vRefDist(s.metric, q.Q, v) })
+		cands, boundary := vEligible(s.metric, s.m.live, q, true, func(id uint32, v []float32) float64 { return vRefDist(s.metric, q.Q, v) })
 		if boundary {
 			s.c.Extra["queries_skipped_boundary"]++
 			continue
@@ -158,7 +158,7 @@ func init() {
 	mk := func(c *vCtx, metric DistanceKind, dim, nids int) *vFlatSys { return newFlatSys(c, metric, dim, nids) }
 	vRegister(&vCheck{
 		ID: "C01", Level: "model_checking", Engine: "histmc",
-		Rule: "BFS over Add(fresh id, value)/Remove(any id)/Flush histories on the real FlatIndex with canonical-state dedupe; in every reached state every query of the alphabet (query x k x threshold x id-restriction) is compared with brute-force k-NN in float64. Non-trivial = distinct (config, model state, query) where soft-delete, restriction, threshold or k removed at least one live candidate and the expected answer is non-empty.",
+		Rule:        "BFS over Add(fresh id, value)/Remove(any id)/Flush histories on the real FlatIndex with canonical-state dedupe; in every reached state every query of the alphabet (query x k x threshold x id-restriction) is compared with brute-force k-NN in float64. Non-trivial = distinct (config, model state, query) where soft-delete, restriction, threshold or k removed at least one live candidate and the expected answer is non-empty.",
 		Assumptions: []string{"ties at the k-th place and order among equal scores are unspecified", "float32 score vs float64 reference within 1e-5 relative; threshold comparisons are crisp only on integer-coordinate (exact) inputs, otherwise queries with a candidate within 1e-4 of the threshold are skipped and counted", "small-scope: dimensions 1-3 (+ one structured d=64 family), ids 1..3/4"},
 		Shards: func(tier string) []vShard {
 			var sh []vShard
